@@ -1986,6 +1986,40 @@ def _corpus():
     add("p3-closed-enum-repeated", P3 + 'import "x.proto"; message M { repeated E e = 1; }', {"x.proto": P2 + "enum E { A = 0; }"})
     add("p3-closed-enum-map", P3 + 'import "x.proto"; message M { map<int32, E> e = 1; }', {"x.proto": P2 + "enum E { A = 0; }"})
     add("p3-closed-enum-oneof", P3 + 'import "x.proto"; message M { oneof o { E e = 1; } }', {"x.proto": P2 + "enum E { A = 0; }"})
+
+    # cardinality differs from the declaration: validateExtension reports it at the label keyword of the extension;
+    # an extension written without a label (editions, proto3) has none, and the compile of the file panics
+    # (recovered, nothing reported) after whatever was reported before.  Minimised from the five file sets the
+    # thorough tier found (replays/C01-1-1.json): extend at file level / nested, extendee in the same file / another
+    # file / descriptor.proto, other mismatches first, other extensions before and after, a later importer.
+    def XD(num, name, ty, rep):
+        return 'declaration={ number: %d full_name: "%s" type: "%s" %s}' % (num, name, ty, "repeated: true " if rep else "")
+    A1 = "message A { extensions 1 to 10 [%s]; }"
+    add("extdecl-nolabel-ed-samefile", ED + "package foo; " + A1 % XD(1, ".foo.e", "int32", True) + " extend A { int32 e = 1; }")
+    add("extdecl-nolabel-ed-samefile-match", ED + "package foo; " + A1 % XD(1, ".foo.e", "int32", False) + " extend A { int32 e = 1; }")
+    add("extdecl-repeated-ed-samefile", ED + "package foo; " + A1 % XD(1, ".foo.e", "int32", False) + " extend A { repeated int32 e = 1; }")
+    add("extdecl-nolabel-ed-name-first", ED + "package foo; " + A1 % XD(1, ".foo.x", "int32", True) + " extend A { int32 e = 1; }")
+    add("extdecl-nolabel-ed-type-first", ED + "package foo; " + A1 % XD(1, ".foo.e", "string", True) + " extend A { int32 e = 1; }")
+    add("extdecl-nolabel-ed-nested", ED + "package foo; message A { extensions 1 to 10 [%s]; message N { extend A { int32 e = 1; } } }" % XD(1, ".foo.A.N.e", "int32", True))
+    add("extdecl-nolabel-ed-self-nested", ED + "package foo; message A { extensions 1 to 10 [verification=DECLARATION, %s]; extensions 11; "
+        "extend A { int32 e = 11; int32 r = 1; } }" % XD(1, ".foo.A.r", "int32", True))
+    add("extdecl-nolabel-ed-two-exts", ED + "package foo; message A { extensions 1 to 10 [%s, %s]; } extend A { int32 e = 1; int32 f = 2; }"
+        % (XD(1, ".foo.e", "int32", True), XD(2, ".foo.f", "string", False)))
+    add("extdecl-nolabel-ed-two-exts-rev", ED + "package foo; message A { extensions 1 to 10 [%s, %s]; } extend A { int32 f = 2; int32 e = 1; }"
+        % (XD(1, ".foo.e", "int32", True), XD(2, ".foo.f", "string", False)))
+    XSTD = {"google/protobuf/descriptor.proto": P2 + "package google.protobuf; message FieldOptions { extensions 1000 to max [%s, %s]; }"
+            % (XD(1000, ".demo.note", "string", True), XD(1001, ".demo.M.deep", "bool", True))}
+    add("extdecl-nolabel-p3-descriptor", P3 + 'package demo; import "google/protobuf/descriptor.proto"; extend google.protobuf.FieldOptions { string note = 1000; }', XSTD)
+    add("extdecl-optional-p3-descriptor", P3 + 'package demo; import "google/protobuf/descriptor.proto"; extend google.protobuf.FieldOptions { optional string note = 1000; }', XSTD)
+    add("extdecl-repeated-p3-descriptor", P3 + 'package demo; import "google/protobuf/descriptor.proto"; extend google.protobuf.FieldOptions { repeated string note = 1000; }', XSTD)
+    add("extdecl-nolabel-ed-descriptor-nested", ED + 'package demo; import "google/protobuf/descriptor.proto"; message M { extend google.protobuf.FieldOptions { bool deep = 1001; } }', XSTD)
+    add("extdecl-optional-p2-otherfile", P2 + 'package foo; import "x.proto"; extend A { optional int32 e = 1; }',
+        {"x.proto": P2 + "package foo; " + A1 % XD(1, ".foo.e", "int32", True)})
+    add("extdecl-nolabel-ed-otherfile-importer", ED + 'package foo; import "x.proto"; extend A { int32 e = 1; } message B { }',
+        {"x.proto": P2 + "package foo; " + A1 % XD(1, ".foo.e", "int32", True), "u.proto": P3 + 'package foo; import "t.proto"; message C { B b = 1; }'})
+    add("extdecl-nolabel-ed-public-import", ED + 'package foo; import "y.proto"; extend A { int32 e = 1; string s = 2; }',
+        {"x.proto": P2 + "package foo; message A { extensions 1 to 10 [%s, %s]; }" % (XD(1, ".foo.e", "int32", True), XD(2, ".foo.s", "string", False)),
+         "y.proto": P2 + 'import public "x.proto";'})
     return c
 
 
